@@ -616,6 +616,12 @@ def rendersField (f : Field) (obj : GoVal) (attrs : List (String × TfVal)) : Bo
 -- C09: in-place CopyTo follows the source
 -- ===================================================================================================
 
+/-- lists and maps are compared with their null flag recomputed from the elements (C09 speaks about the elements) -/
+def normColl : TfVal → TfVal
+  | .list u _ es t => .list u ((es.getD []).isEmpty) es t
+  | .map u _ es t => .map u ((es.getD []).isEmpty) es t
+  | other => other
+
 def wasNonNullPrim (prev : Option TfVal) : Bool :=
   match prev with
   | some (.prim _ _ n _) => !n
@@ -655,11 +661,7 @@ def followsField (f : Field) (obj : GoVal) (prev cur : List (String × TfVal)) :
            !u && (if info.isNullable && isNilPtr x then n else followsFields sub (structOf x) prevInner (as.getD []))
          | _ => false)
       -- collections: exactly the source's elements (they are rebuilt from the element type on every call)
-      | _ => rendersField f obj (cur.map fun (k, v) =>
-               (k, match v with
-                   | .list u _ es t => TfVal.list u ((es.getD []).isEmpty) es t
-                   | .map u _ es t => TfVal.map u ((es.getD []).isEmpty) es t
-                   | other => other))
+      | _ => rendersField f obj (cur.map fun x => (x.1, normColl x.2))
 end
 
 def c09Follows (m : Msg) (src : GoVal) (prev cur : TfVal) : Bool :=
